@@ -50,7 +50,24 @@ def run_case(c):
     Rb = float(bhe.calc_effective_borehole_resistance())
     eq = bhe.to_single()
     Rb2 = float(eq.calc_effective_borehole_resistance())
-    return {"ok": True, "vf": float(vf), "vp": float(vp), "rc": float(rc), "rp": float(rp), "Rb": Rb, "Rb_eq": Rb2,
+    reuse = {}
+    if c.get("reuse_m"):
+        # the same exchanger object taken to another operating point the way the library itself updates one (set the attribute, recompute the
+        # fluid-to-pipe resistance, refresh the multipole resistances), converted again, and compared with a freshly built exchanger at that point
+        m2 = c["reuse_m"]
+        bhe.m_flow_borehole = m2
+        if kind in ("dp", "ds"):
+            bhe.m_flow_pipe = bhe.calc_mass_flow_pipe(m2, DoubleUTubeConnType.PARALLEL if kind == "dp" else DoubleUTubeConnType.SERIES)
+            bhe.calc_fluid_pipe_resistance()
+            bhe.update_thermal_resistances(bhe.R_fp)
+        else:
+            bhe.calc_fluid_pipe_resistance()
+            bhe.update_thermal_resistances(bhe.R_ff, bhe.R_fp)
+        eq2 = bhe.to_single()
+        fresh = run_case({k: v for k, v in c.items() if k != "reuse_m"} | {"m": m2})
+        reuse = {"reuse": {"eq_R_fp": float(eq2.R_fp), "eq_k_pipe": float(eq2.pipe.k), "eq_r_in": float(eq2.pipe.r_in), "R_fp_orig": float(bhe.R_fp),
+                           "fresh_eq_R_fp": fresh.get("eq_R_fp"), "fresh_eq_k_pipe": fresh.get("eq_k_pipe"), "fresh_R_fp_orig": fresh.get("R_fp_orig")}}
+    return {**reuse, "ok": True, "vf": float(vf), "vp": float(vp), "rc": float(rc), "rp": float(rp), "Rb": Rb, "Rb_eq": Rb2,
             "eq_r_in": float(eq.pipe.r_in), "eq_r_out": float(eq.pipe.r_out), "eq_k_pipe": float(eq.pipe.k), "eq_k_grout": float(eq.grout.k),
             "eq_R_fp": float(eq.R_fp), "eq_R_p": float(eq.R_p), "eq_rb": float(eq.b.r_b), "k_grout_orig": c["kg"], **extra}
 
